@@ -250,6 +250,14 @@ def teval(t: Term, env: dict):
             raise
         except Exception as e:
             raise Unknown(f"{op}: {e}")
+    if op in ("call:codecs.decode", "call:codecs.encode"):
+        import codecs as _codecs
+        pos = [ev(x) for x in a if not (isinstance(x, App) and x.op == "kw")]
+        kws = {x.args[0].v: ev(x.args[1]) for x in a if isinstance(x, App) and x.op == "kw"}
+        try:
+            return getattr(_codecs, op.split(".")[-1])(*pos, **kws)
+        except Exception as e:
+            raise Unknown(f"{op}: {e}")
     if op in ("str", "call:str"):
         return str(ev(a[0]))
     if op == "call:int":
